@@ -11,7 +11,7 @@ FUNCTIONS = ["CondensedReactionGraph.from_graphs", "StereoCondensedReactionGraph
              "get_formed_bonds", "get_broken_bonds", "get_fleeting_bonds"]
 BOUNDS = {"quick": "common atom set {0,1,2} (elements C,H,O) and a 4-atom centre {0..3}; every reactant / product bond set, optional TS with every superset of R∪P; "
                    "descriptor choice per structure on atom 0 (absent, Tet+, Tet-, SP over the structure's actual neighbours) and on bond 0-1 (absent, PlanarBond, "
-                   "AtropBond+/-) ; every instance also on identifiers 0, 8, 16, 24 (colliding modulo 8) with the product graph's bonds added with swapped arguments",
+                   "AtropBond+/-) ; every instance also on identifiers 0, 8, 16, 24 (colliding modulo 8) with the product graph's bonds added with swapped arguments and the TS graph's atoms inserted in reverse order",
           "thorough": "adds a 6-atom SN2 centre whose descriptor changes class between R (Tet), TS (TBP) and P (Tet), all parities"}
 OUTSIDE = "more than one decorated atom and one decorated bond per structure; atom sets beyond the bounds; unspecified parities in the 'exactly the original descriptors' clause (as the property says)"
 ASSUMPTIONS = ["descriptors are stereo-valid in their own structure (listing bonded neighbours), as produced by perception / import"]
